@@ -15,9 +15,56 @@ ASSUMPTIONS = ["token values and grant ids are fresh", "client authentication su
                "token exchange across grants is outside the model (F-C03-b is reported from the oracle only)"]
 
 
+def chain_case(rng, oidc, jwt):
+    """derivation chains: code -> (AT1,RT1) -> refresh -> (AT2,RT2) -> ...; some middle tokens revoked non-recursively, then an
+    ancestor revoked recursively (API or OIDC code replay), then every token probed"""
+    return {"t": "chain", "oidc": oidc, "jwt": jwt, "depth": rng.randint(2, 4), "seed": rng.getrandbits(32)}
+
+
+def _chain_ops(c):
+    import random
+    rng = random.Random(c["seed"])
+    red = "https://client_1.example.com/cb"
+    R = prov.Runner(c["oidc"], c["jwt"])
+    ops = []
+
+    def do(o):
+        ops.append(o)
+        return R.op(o)
+    do(["authorize", "diana", "client_1", ["openid", "offline_access", "email"], red])
+    do(["tokenParse", "client_1", 1, red])
+    r = do(["tokenProcess", 0])
+    rts = [r[2]] if r[0] == "tokens" else []
+    for _ in range(c["depth"] - 1):
+        if not rts or rts[-1] < 0:
+            break
+        r = do(["refresh", "client_1", rts[-1], None])
+        if r[0] == "tokens" and r[2] >= 0:
+            rts.append(r[2])
+        else:
+            break
+    alltok = sorted(R.val)
+    # revoke some middle tokens without recursion (endpoint or API)
+    for t in rng.sample(alltok[1:], min(len(alltok) - 1, rng.randint(1, 2))):
+        do(["revokeEp", "client_1", t] if rng.random() < 0.5 else ["revokeTok", t, False])
+    # then an ancestor recursively
+    anc = rng.choice([1] + [x for x in rts[:1] if x >= 0])
+    if c["oidc"] and anc == 1 and rng.random() < 0.5:
+        do(["tokenParse", "client_1", 1, red])          # replay of the used code at the OIDC endpoint
+    else:
+        do(["revokeTok", anc, True])
+    for t in sorted(R.val):
+        do(["userinfo", t]); do(["introspect", "client_1", t])
+    if rts and rts[-1] >= 0:
+        do(["refresh", "client_1", rts[-1], None])
+    return ops
+
+
 def cases(rng, tier):
     n = {"quick": 60, "thorough": 900, "search": 600}[tier]
     out = []
+    for _ in range({"quick": 24, "thorough": 300, "search": 200}[tier]):
+        out.append(chain_case(rng, rng.random() < 0.6, rng.random() < 0.3))
     for i in range(n):
         oidc = rng.random() < 0.6
         jwt = rng.random() < 0.3
@@ -29,6 +76,8 @@ def cases(rng, tier):
 def _ops_for(c):
     if "ops" in c:
         return c["ops"]
+    if c["t"] == "chain":
+        return _chain_ops(c)
     import random
     ops, _ = prov.gen_adaptive(random.Random(c["gen_seed"]), c["n"], oidc=c["oidc"], jwt=c["jwt"])
     return ops
@@ -113,9 +162,11 @@ def oracle(c, obs):
             dead |= {h for h, inf in info.items() if inf[1] in gs}; addressed = gs
         elif k == "remove" and ok:
             dead |= {h for h, inf in info.items() if inf[1] == o[1]}; addressed = {o[1]}
-        elif k == "tokenParse" and c["oidc"] and not ok and o[2] in info:
-            # second presentation of a used code at the OIDC endpoint
-            pass
+        elif k == "tokenParse" and c["oidc"] and not ok and o[2] in info and info[o[2]][0] == "code":
+            # second presentation of a used code at the OIDC endpoint invalidates what was minted from it
+            used = [t for t in st["proj"]["toks"] if t[0] == o[2] and t[4] > 0]
+            if used:
+                dead |= desc(o[2])
         for hnd, (ui, it) in st["status"].items():
             inf = info.get(hnd)
             if inf is None:
